@@ -2,11 +2,12 @@
 From Coq Require Extraction.
 From Coq Require Import ExtrOcamlBasic.
 From Coq Require Import ZArith QArith List.
-From RLV Require Import Model.Logger Model.Buffers Model.BufferRun Model.Num Model.PrioNum Model.Checkpointing.
+From RLV Require Import Model.Logger Model.Buffers Model.BufferRun Model.Num Model.PrioNum Model.Checkpointing Model.Tabular.
 Extraction Language OCaml.
 Extraction "../build/ocaml/model.ml"
   (* base *) Nat.add Qred Qplus Qmult Qminus Qdiv Qopp Qle_bool Qeq_bool
   (* Logger *) mrun get_stat srun spec_get_stat list_run crun fired crossings
   (* Buffers *) rb_init rb_trace lap_init lap_trace sb_init sb_trace sbp_init sbp_trace mt_lap_init mt_trace mtu_init mtu_trace lastn
   (* PrioNum *) is_weights lap_priority per_priority
-  (* Checkpointing *) td7_run cstate_init assess.
+  (* Checkpointing *) td7_run cstate_init assess
+  (* Tabular *) update_policy q_learning_step dql_update mc_update dyna_q_update dyna_step dyna_init zeros2 greedy planning.
